@@ -370,7 +370,7 @@ def _start_watchdog():
     threading.Thread(target=watch, daemon=True).start()
 
 
-def raised_in_repo(exc: BaseException) -> bool:
+def raised_in_repo(exc: BaseException, transparent: tuple = ()) -> bool:
     """
     Was the exception raised by liesel itself (innermost frame inside $VERIF_REPO)?
     An exception that liesel throws on a VALID operation is a violation; one thrown by
@@ -395,7 +395,8 @@ def raised_in_repo(exc: BaseException) -> bool:
         f = os.path.realpath(tb.tb_frame.f_code.co_filename)
         if f.startswith(repo + os.sep):
             owner = "repo"
-        elif f.startswith(VERIF + os.sep):
+        elif f.startswith(VERIF + os.sep) and tb.tb_frame.f_code.co_name not in transparent:
+            # harness frames that merely delegate (named in `transparent`) do not own the error
             owner = "harness"
         tb = tb.tb_next
     return owner == "repo"
